@@ -88,6 +88,25 @@ def continue_periodic_array(arr, nn):
         return np.asarray(cont_arr)
 
 
+def nearest_periodic_images(arr, nn, p):
+    """
+    Function to place the neighbors of a point on the periodic images next to it
+
+    In contrast to continue_periodic_array this does not need a gap in the (sorted) neighbors to detect the wrap
+    around the boundary, i.e. it also works if the neighbors are all points of the grid.
+
+    Args:
+        arr (np.ndarray): the input array (grid on an interval of length 1)
+        nn (list): the neighbors
+        p: the point the neighbors belong to
+
+    Returns:
+        np.ndarray: the neighbors, each shifted by the multiple of the period that brings it closest to p
+    """
+    pts = np.asarray(arr)[np.asarray(nn, dtype=int)]
+    return pts + np.round(p - pts)
+
+
 def restriction_matrix_1d(fine_grid, coarse_grid, k=2, periodic=False, pad=1):
     """
     Function to contruct the restriction matrix in 1d using barycentric interpolation
@@ -110,9 +129,7 @@ def restriction_matrix_1d(fine_grid, coarse_grid, k=2, periodic=False, pad=1):
         for i, p in zip(range(n_g), coarse_grid, strict=True):
             nn = next_neighbors_periodic(p, fine_grid, k)
             circulating_one = np.asarray([1.0] + [0.0] * (k - 1))
-            cont_arr = continue_periodic_array(fine_grid, nn)
-            if p > np.mean(coarse_grid) and not (cont_arr[0] <= p <= cont_arr[-1]):
-                cont_arr += 1
+            cont_arr = nearest_periodic_images(fine_grid, nn, p)
             bary_pol = []
             for l in range(k):
                 bary_pol.append(BarycentricInterpolator(cont_arr, np.roll(circulating_one, l)))
@@ -175,12 +192,9 @@ def interpolation_matrix_1d(fine_grid, coarse_grid, k=2, periodic=False, pad=1, 
 
                     circulating_one = np.asarray([1.0] + [0.0] * (k - 1))
                     if len(nn) > 0:
-                        cont_arr = continue_periodic_array(coarse_grid, nn)
+                        cont_arr = nearest_periodic_images(coarse_grid, nn, p)
                     else:
                         cont_arr = coarse_grid
-
-                    if p > np.mean(fine_grid) and not (cont_arr[0] <= p <= cont_arr[-1]):
-                        cont_arr += 1
 
                     bary_pol = []
                     for l in range(k):
@@ -192,10 +206,7 @@ def interpolation_matrix_1d(fine_grid, coarse_grid, k=2, periodic=False, pad=1, 
             for i, p in zip(range(n_f), fine_grid, strict=True):
                 nn = next_neighbors_periodic(p, coarse_grid, k)
                 circulating_one = np.asarray([1.0] + [0.0] * (k - 1))
-                cont_arr = continue_periodic_array(coarse_grid, nn)
-
-                if p > np.mean(fine_grid) and not (cont_arr[0] <= p <= cont_arr[-1]):
-                    cont_arr += 1
+                cont_arr = nearest_periodic_images(coarse_grid, nn, p)
 
                 bary_pol = []
                 for l in range(k):
